@@ -9,8 +9,8 @@ canonically.
 * `kind` ∈ `lin | lat | ens`; `lattices` = list of lists of feature indices (`_` when none);
 * `features` = `feat|feat|…`, `feat` =
   `numBuckets:mono:latticeSize:default:alwaysMono:convexity:clampMin:clampMax:numKeypoints:learned:unimodality:trusts:dominates`,
-  `mono` = `n` | `i1` | `i0` | `d1` | `d0` (digit = canonical spelling) | `L<pairs>` | `T<pairs>`
-  (list / other iterable; pairs `a-b+c-d`, possibly empty), `trusts` = `_` or `main.trap.dir+…`,
+  `mono` = `n` | `i1` | `i0` | `d1` | `d0` (digit = canonical spelling) | `L<pairs>` | `T<pairs>` |
+  `S<pairs>` (list / tuple / other iterable; pairs `a-b+c-d`, possibly empty), `trusts` = `_` or `main.trap.dir+…`,
   `dominates` = `_` or `a+b`.
 
 Reply: `ERR ValueError` or
@@ -33,8 +33,9 @@ def parseMono (s : String) : Option MonoSpec :=
   | "i1" => some (.inc true) | "i0" => some (.inc false)
   | "d1" => some (.dec true) | "d0" => some (.dec false)
   | _ =>
-    if s.startsWith "L" then (parsePairsDash (s.drop 1).toString).map (fun ps => .pairs ps true)
-    else if s.startsWith "T" then (parsePairsDash (s.drop 1).toString).map (fun ps => .pairs ps false)
+    if s.startsWith "L" then (parsePairsDash (s.drop 1).toString).map (fun ps => .pairs ps .list)
+    else if s.startsWith "T" then (parsePairsDash (s.drop 1).toString).map (fun ps => .pairs ps .tuple)
+    else if s.startsWith "S" then (parsePairsDash (s.drop 1).toString).map (fun ps => .pairs ps .other)
     else none
 
 def parseTrusts (s : String) : Option (List (Nat × Bool × Int)) :=
@@ -111,6 +112,8 @@ def showResult : Except Err LayerGraph → String
 def handlers : List (String × Handler) := [
   ("pm.build", fun args => (parseConfig args).map (fun c => showResult (buildSpec c))),
   -- the model variant with the RTL filing rule before fix b13cb79 (F-C03-c)
-  ("pm.buildold", fun args => (parseConfig args).map (fun c => showResult (buildSpecOld c)))
+  ("pm.buildold", fun args => (parseConfig args).map (fun c => showResult (buildSpecOld c))),
+  -- the model variant with the literal-list RTL rule before fix defc941 (F-C03-d)
+  ("pm.buildliteral", fun args => (parseConfig args).map (fun c => showResult (buildSpecLiteral c)))
 ]
 end Tfl.Driver.Premade
